@@ -257,8 +257,10 @@ Section Stream.
 Variable ksf : list Z -> Z -> Z.  (* salsa20 keystream byte i under the 8-byte nonce (key fixed) *)
 Variable padf : Z -> Z.           (* byte i of pbkdf2(key, saltxor, 32, mtuLimit, sha1) *)
 
-(* crypt.go:176   if len(src) < 8 { return }        <- finding F5: dst is left unwritten *)
-Definition salsa_short (m : mem) : mem := m.
+(* the short path `if len(src) < 8 { copy(dst, src); return }`: a packet too short to carry a
+   nonce passes in clear.  (Until the repair of finding F5 this was a bare `return`, i.e.
+   `salsa_short m := m`, which left dst unwritten out of place.) *)
+Definition salsa_short (m : mem) : mem := st_dst m 0 (ld_src_from m 0).
 
 (* func (c *salsa20BlockCrypt) Encrypt(dst, src []byte) *)
 Definition salsa_encrypt (m : mem) : mem :=
